@@ -63,12 +63,17 @@ async fn run_authz(ops: &[String], model: &mut Option<ModelProc>) -> Result<Case
         out.hits.push(format!("op:{head}"));
         if got == "bad-op" { out.hits.push("bad-op".into()); continue; }
         rf.track(op);
+        if head == "deleg" && rf.has_forward_parent() { out.hits.push("cover:history-with-forward-parent(cycle-capable)".into()); }
+        if head == "deleg" && got.starts_with("ok ") { if let Some(n) = got[3..].parse::<usize>().ok() { out.hits.push(format!("cover:delegation-row-chain-depth-{}", rf.chain_depth(n).min(9))); } }
         if head == "auth" || head == "names" {
             let dec = got.split(' ').nth(1).unwrap_or("");
             if let Some(w) = got.split(' ').find_map(|x| x.strip_prefix("why=")) { out.hits.push(format!("stage:{}", w.split(':').next().unwrap_or(w))); }
             out.hits.push(if got.starts_with("ok ") { format!("decision:{dec}") } else if got.starts_with("held") { "names".into() } else { format!("answer:{got}") });
             if got.contains("used=kip:grant") { out.hits.push("witness:grant".into()); out.nontrivial = true; }
-            if got.contains("used=kip:delegation") { out.hits.push("witness:delegation".into()); out.nontrivial = true; }
+            if got.contains("used=kip:delegation") {
+                out.hits.push("witness:delegation".into()); out.nontrivial = true;
+                if let Some(n) = got.split(' ').find_map(|x| x.strip_prefix("used=kip:delegation:")).and_then(|n| n.parse::<usize>().ok()) { out.hits.push(format!("cover:cited-delegation-chain-depth-{}", rf.chain_depth(n))); }
+            }
             if got.contains("used=policy:") { out.hits.push("witness:policy".into()); out.nontrivial = true; }
             if got.contains("used=owner:") { out.hits.push("witness:owner".into()); }
             if op.split(' ').nth(6).is_some_and(|c| c != "-") && head == "auth" { out.hits.push("named-chain".into()); }
@@ -178,7 +183,7 @@ fn main() {
         cases.push(("gate-fixed".into(), gate::all_fixed()));
         let focus = args.focus.clone().unwrap_or_default();
         let only = |k: &str| focus.is_empty() || !["authz", "gate", "nonint", "preserve"].iter().any(|m| focus.contains(m)) || focus.contains(k);
-        let budgets: [(&str, u64, u64); 4] = [("authz", 480, 20000), ("gate", 60, 2000), ("nonint", 64, 2500), ("preserve", 30, 800)];
+        let budgets: [(&str, u64, u64); 4] = [("authz", 480, 9000), ("gate", 60, 2000), ("nonint", 64, 1200), ("preserve", 30, 400)];
         for (kind, q, t) in budgets {
             if !only(kind) { continue; }
             for i in 0..args.budget(q, t) {
